@@ -13,9 +13,12 @@ import (
 	"crypto/x509"
 	"crypto/x509/pkix"
 	"encoding/json"
+	"errors"
 	"fmt"
+	"io"
 	"math/big"
 	"net"
+	"net/http"
 	"reflect"
 	"strings"
 	"sync"
@@ -331,6 +334,8 @@ func c10Check(c c10Case) *kit.Verdict {
 		err error
 	}
 	och := make(chan outcome, 1)
+	jw := startJitterWatch()
+	defer jw.Stop()
 	start := time.Now()
 	go func() {
 		res, err := s.Scan(context.Background(), req)
@@ -355,6 +360,33 @@ func c10Check(c c10Case) *kit.Verdict {
 	expect := c.Primary.objectDelivered()
 	if c.Scan == "docker" {
 		expect = expect && c.Primary.Status >= 200 && c.Primary.Status < 300 && !c.Ping.hangs()
+	}
+	if expect && o.res == nil && o.err != nil && (errors.Is(o.err, context.DeadlineExceeded) || strings.Contains(o.err.Error(), "imeout")) {
+		// the probe ran into its own timeout although the server does serve the object. On a busy machine that is what happens
+		// to any client (1 MiB bodies, 150 ms): no verdict if the machine stalled, if a plain reference client cannot fetch the
+		// object within the same timeout either, or if the miss does not repeat
+		if jw.Stop() > T/8 {
+			return &kit.Verdict{Inconclusive: true}
+		}
+		path := "/"
+		if c.Scan == "docker" {
+			path = "/v1.24/info"
+		}
+		refc := &http.Client{Timeout: T, Transport: &http.Transport{TLSClientConfig: &tls.Config{InsecureSkipVerify: true}, DisableKeepAlives: true}}
+		refOK := false
+		if resp, err := refc.Get(fmt.Sprintf("%s://%s%s", c.Proto, hostport, path)); err == nil {
+			_, err = io.Copy(io.Discard, resp.Body)
+			resp.Body.Close()
+			refOK = err == nil
+		}
+		if !refOK {
+			return &kit.Verdict{Inconclusive: true}
+		}
+		for i := 0; i < 2; i++ {
+			if res, err := s.Scan(context.Background(), req); res != nil && err == nil {
+				return &kit.Verdict{Inconclusive: true}
+			}
+		}
 	}
 	if expect && o.res == nil {
 		return v.Failf("%s endpoint %s://%s served a JSON object but was not reported (err=%v)\nserver: %s\nrequests seen: %v", c.Scan, c.Proto, hostport, o.err, c.describe(), sc.requests())
